@@ -56,6 +56,7 @@ static void h_run_case(hcase_t* c) {
   the_lock.state.counters.ticket = start;
   the_lock.state.counters.users = start;
   rt_reg((void*)&the_lock, 8, 0, 4);
+  rt_reg_rest(&the_lock, sizeof the_lock, 3900);   /* search mode only: fields the model does not know */
   rt_run(c->nthreads, body, c->sched, c->nsched, dmax);
   rt_print_trace();
 }
